@@ -24,6 +24,13 @@ def gen_cases(seed, tier):
             avg = v0 * rng.choice([1.3, 2.0, 4.0, 50.0])      # 50: no division within the horizon
             c["volume"] = {"type": "tt", "cycle": cyc, "avg": avg, "noise": rng.choice([0.0, 0.05, 0.2]), "V0": v0}
         if rng.random() < 0.3: c["spec"]["reactions"] = []      # nothing can ever fire
+        elif rng.random() < 0.25:
+            # a user-written rate law that mentions the volume itself, inside min / max (a capped, volume-diluted production): every
+            # argument sees the current volume (seeded change S6_C11: only the first argument of a min did)
+            sp0 = sorted(c["spec"]["x0"])[0]
+            c["spec"]["parameters"].update({"kcap": rng.choice([0.5, 2.0, 6.0]), "kvol": rng.choice([0.2, 1.0])})
+            c["spec"]["reactions"].append({"reactants": [], "products": [sp0], "type": "general",
+                                           "params": {"rate": rng.choice(["Min(kcap, kvol*(1+%s)/volume)", "Max(0.1*kcap, kvol*volume/(1+%s))", "Min(kvol*volume, kcap, 1+%s)"]) % sp0}})
         cases.append(c)
     # volume models that divide on the volume itself (StateDependentVolume), in the volume-aware AND in the delay + volume simulator:
     # the result ends at the first requested time at which the stepped volume exceeds the division volume, and no reported volume
